@@ -154,6 +154,13 @@ def syntax_matrix():
                   ("-> ClassName", "public destructor() -> Q { echo(\"x\"); }"), ("-> ClassName = default", "public destructor() -> Q = default;")):
         out.append(("destructor %s" % dn, "class Q { public constructor() -> Q { } %s }\nfunction main() -> void { Q o = new Q(); destroy o; echo(\"m\"); }" % d,
                     (["x"] if "echo" in d else []) + ["m"]))
+    # a for-initialiser is a variableDeclaration as anywhere else: annotated, or of a class type
+    out.append(("for (@tracked qubit ...)", "function main() -> void { int n = 0; for (@tracked qubit v; n < 1; n = n + 1) { echo(\"b\"); } echo(\"m\"); }", ["b", "m"]))
+    out.append(("for (class-typed ...)", "class K { public int id = 0; public constructor() -> K { } }\nfunction main() -> void { for (K k = new K(); k.id < 1; k.id = k.id + 1) { echo(\"b\"); } echo(\"m\"); }", ["b", "m"]))
+    out.append(("for (element assignment; ...)", "function main() -> void { int[] a = {5}; for (a[0] = 0; a[0] < 1; a[0] = a[0] + 1) { echo(\"b\"); } echo(\"m\"); }", ["b", "m"]))
+    # field modifiers in both documented orders
+    for order in ("final static", "static final"):
+        out.append(("%s field" % order, "class K { public %s int A = 3; public constructor() -> K { } }\nfunction main() -> void { echo(K.A); echo(\"m\"); }" % order, ["3", "m"]))
     out.append(("for (qubit ...)", "function main() -> void { int n = 0; for (qubit v; n < 1; n = n + 1) { echo(\"b\"); } echo(\"m\"); }", ["b", "m"]))
     # the conditional statement on every kind of condition
     for cn, pre, cond in (("comparison", "int a = 1;", "a < 2"), ("parenthesised", "int a = 1;", "(a < 2)"), ("logical", "boolean a = true;", "a && !false || false"),
